@@ -5,6 +5,7 @@ from the random.Random they are given.  The schema accessor modules under tools/
 copy of the flatc-generated code (independent of /repo)."""
 import importlib
 import os
+import math
 import random
 import sys
 
@@ -49,6 +50,7 @@ OPT_OF = {
     "LESS": "LessOptions", "GREATER": "GreaterOptions", "EQUAL": "EqualOptions",
     "VAR_HANDLE": "VarHandleOptions", "ASSIGN_VARIABLE": "AssignVariableOptions", "READ_VARIABLE": "ReadVariableOptions",
     "UNIDIRECTIONAL_SEQUENCE_LSTM": "UnidirectionalSequenceLSTMOptions",
+    "SPACE_TO_BATCH_ND": "SpaceToBatchNDOptions", "BATCH_TO_SPACE_ND": "BatchToSpaceNDOptions",
 }
 VERSION = {"CONV_2D": 3, "DEPTHWISE_CONV_2D": 3, "FULLY_CONNECTED": 4, "MAX_POOL_2D": 2, "AVERAGE_POOL_2D": 2, "ADD": 2,
            "SUB": 2, "MUL": 2, "CONCATENATION": 2, "PAD": 2, "LOGISTIC": 2, "TANH": 2, "RELU": 2, "RELU6": 2,
@@ -591,7 +593,7 @@ SINGLE_KINDS = ["conv", "dw", "fc", "maxpool", "avgpool", "add", "sub", "mul", "
                 "mean_axis", "pool_big", "conv_stride_asym", "squeeze_expand", "ew16",
                 "concat_hw", "pad_conv", "fc_batch", "tconv_var", "resize_x", "ew_rank", "conv_big_kernel", "pool_then_ew",
                 "splitv", "slice_op", "unpack_pack", "sqdiff", "argmax", "quant_chain",
-                "mean_big", "pad_pool", "slice_masks", "dw_mult", "conv_1d"]
+                "mean_big", "pad_pool", "slice_masks", "dw_mult", "conv_1d", "exp", "rsqrt"]
 
 
 def fam_single_op(rng, kind=None):
@@ -984,6 +986,16 @@ def fam_single_op(rng, kind=None):
             alpha = net.tensor(ashape, x.dtype, a_sc, a_zp, codes.reshape(ashape), name="prelu_alpha")
             y = net.tensor(list(x.shape), x.dtype, _rs(rng, 0.01, 0.3) if rng.random() < 0.7 else x.scale, _zp(rng, x.dtype))
             net.op("PRELU", [x, alpha], [y], {})
+        elif kind == "exp":
+            # e^x of inputs in about [-8, 2]: the output scale covers the largest value
+            x.scale, x.zp = _rs(rng, 0.01, 0.04), rng.choice([0, 60, 100, 127]) if x.dtype == "int8" else x.zp
+            top = math.exp(x.scale * ((127 if x.dtype == "int8" else 255) - x.zp))
+            y = unary(net, rng, "EXP", x, out_scale=float(np.float32(top / 250.0)), out_zp=-128 if x.dtype == "int8" else 0)
+        elif kind == "rsqrt":
+            # 1/sqrt(x): defined for positive inputs only, so the input zero point is the smallest code
+            x.scale, x.zp = _rs(rng, 0.005, 0.1), (-128 if x.dtype == "int8" else 0)
+            y = unary(net, rng, "RSQRT", x, out_scale=float(np.float32(1.0 / math.sqrt(x.scale) / rng.choice([200.0, 250.0, 120.0]))),
+                      out_zp=-128 if x.dtype == "int8" else 0)
         elif kind == "relu":
             y = unary(net, rng, rng.choice(["RELU", "RELU6"]), x)
         elif kind == "abs":
@@ -2104,6 +2116,82 @@ def fam_lstm(rng, kind=None):
 
 
 FAMILIES["lstm"] = fam_lstm
+
+
+def fam_rewrite_patterns(rng, kind=None):
+    """operator groups that Vela's graph optimiser recognises across operators the NPU does not run:
+    float island  DEQUANTIZE -> EXP | LOG (float32) -> QUANTIZE              (kinds deq_exp_q, deq_log_q, deq_exp_fan)
+    dilation      SPACE_TO_BATCH_ND -> CONV_2D | DEPTHWISE (VALID) -> BATCH_TO_SPACE_ND, the way the converter writes a
+                  dilated convolution it could not fold: with the paddings / crops of SAME (s2b_same), of VALID
+                  (s2b_valid) and with a second reader of the rearranged tensor (s2b_fan)"""
+    kind = kind or rng.choice(["deq_exp_q", "deq_log_q", "deq_exp_fan", "s2b_same", "s2b_valid", "s2b_same", "s2b_fan"])
+    net = Net("rewrite_" + kind)
+    if kind.startswith("deq"):
+        dt = "int8"
+        shp = rng.choice([[1, 4, 4, 8], [1, 16], [1, 3, 5, 7], [2, 8]])
+        x = _inp(net, rng, shp, dt)
+        if kind == "deq_log_q":
+            x.scale, x.zp = _rs(rng, 0.01, 0.05), -128           # positive reals only
+        else:
+            x.scale, x.zp = _rs(rng, 0.01, 0.04), rng.choice([0, 60, 100, 127])
+        if rng.random() < 0.5:                                     # something on the NPU in front
+            x = unary(net, rng, "RELU", x)
+        f = net.tensor(list(shp), "float32")
+        net.op("DEQUANTIZE", [x], [f], {}, version=2)
+        g = net.tensor(list(shp), "float32")
+        net.op("EXP" if kind != "deq_log_q" else "LOG", [f], [g], {})
+        if kind == "deq_log_q":
+            osc, ozp = float(np.float32(8.0 / 250)), 64
+        else:
+            osc, ozp = float(np.float32(math.exp(x.scale * (127 - x.zp)) / 250.0)), -128
+        y = net.tensor(list(shp), dt, osc, ozp)
+        net.op("QUANTIZE", [g], [y], {}, version=1)
+        outs = [y]
+        if kind == "deq_exp_fan":                                  # the float result has a second reader
+            y2 = net.tensor(list(shp), dt, float(np.float32(osc * 2)), ozp)
+            net.op("QUANTIZE", [g], [y2], {}, version=1)
+            outs.append(y2)
+        net.output(*outs)
+        return net
+    dt = rng.choice(["int8", "int8", "uint8"])
+    d = rng.choice([2, 2, 3, 4])
+    k = rng.choice([3, 3, 2])
+    c = rng.choice([4, 8, 16])
+    span = d * (k - 1)
+    if kind == "s2b_valid":
+        h, w = span + rng.choice([1, 2, 4, 6]), span + rng.choice([1, 3, 4, 8])
+        oh, ow = h - span, w - span
+        pt, pl = 0, 0
+    else:
+        h, w = rng.choice([5, 6, 8, 9, 12]), rng.choice([4, 6, 8, 11])
+        oh, ow = h, w
+        pt, pl = span // 2, span // 2
+    # rows after padding: a multiple of d that holds pad_top + h + (span - pad_top)
+    ph = -(-(h + (span if kind != "s2b_valid" else 0)) // d) * d
+    pw = -(-(w + (span if kind != "s2b_valid" else 0)) // d) * d
+    pb, pr = ph - h - pt, pw - w - pl
+    x = _inp(net, rng, [1, h, w, c], dt)
+    blk = net.tensor([2], "int32", None, None, [d, d], name="block_shape")
+    pads = net.tensor([2, 2], "int32", None, None, [[pt, pb], [pl, pr]], name="s2b_paddings")
+    sb = net.tensor([d * d, ph // d, pw // d, c], dt, x.scale, x.zp)
+    net.op("SPACE_TO_BATCH_ND", [x, blk, pads], [sb], {})
+    if rng.random() < 0.7:
+        cv = conv2d(net, rng, sb, rng.choice([4, 8, 16]), (k, k), (1, 1), (1, 1), "VALID")
+    else:
+        cv = depthwise(net, rng, sb, (k, k), (1, 1), (1, 1), "VALID")
+    # (the helpers compute the VALID output shape from the 4-D input shape: [d*d, ph/d - k + 1, pw/d - k + 1, oc])
+    full_h, full_w = cv.shape[1] * d, cv.shape[2] * d
+    crops = net.tensor([2, 2], "int32", None, None, [[0, full_h - oh], [0, full_w - ow]], name="b2s_crops")
+    y = net.tensor([1, oh, ow, cv.shape[3]], dt, cv.scale, cv.zp)
+    net.op("BATCH_TO_SPACE_ND", [cv, blk, crops], [y], {})
+    outs = [y]
+    if kind == "s2b_fan":
+        outs.append(pool(net, rng, sb, "MAX_POOL_2D", (1, 1), (1, 1), "VALID"))
+    net.output(*outs)
+    return net
+
+
+FAMILIES["rewrite_patterns"] = fam_rewrite_patterns
 
 
 def generate(family, seed):
